@@ -42,7 +42,22 @@ type Spec struct {
 	//   "incl"  (v2) all modules share the directory proto and select their files with includes: [proto/p<i>]
 	//   "excl"  (v2) all modules share the directory proto and drop the other modules' files with excludes
 	//   "roots" (v1) v1beta1 modules with two roots: m<i>/ra holds a.proto, m<i>/rb holds b.proto
+	// and, with an excluded directory in every local module (Excluded says what it holds; fourth round):
+	//   "x1"     v1 modules, build.excludes
+	//   "x2"     v2 modules (path m<i>), excludes
+	//   "xb"     v1beta1 modules with the default root ".", build.excludes
+	//   "xb1"    v1beta1 modules with the single root src, build.excludes below it
+	//   "xroots" v1beta1 modules with the two roots ra and rb (as "roots"), build.excludes below each of them
 	Layout string `json:"layout,omitempty"`
+	// Excluded (x-layouts only): what the excluded directory of every local module i holds. The reference does not
+	// know these files at all: an excluded file is not a file of the module, so it must leave no trace.
+	//   "importer" p<i>/a/d.proto imports a.proto of every other module of the workspace (would add dependencies / cycles)
+	//   "missing"  p<i>/x/z/e.proto imports a path nobody provides (would be a missing import)
+	//   "vendored" p<j>/a.proto, a copy of the file of the next module j (would be a path in two modules)
+	//   "all"      the three directories together
+	Excluded string `json:"excluded,omitempty"`
+	// Alone (n = 1, v1 config family): the module stands alone, there is no buf.work.yaml.
+	Alone bool `json:"alone,omitempty"`
 	// Ages (v1 only, with TwoCommit >= 0): the k-th local module whose buf.lock pins node TwoCommit pins the
 	// commit of age Ages[k] (0 = the newest commit, a >= 1 = older and older commits with other content), so
 	// three pinning modules give three commits of one name. Empty = the two-commit variant described by TCOrder.
@@ -68,13 +83,112 @@ func (s Spec) place(i int, protoPath string) string {
 	switch s.Layout {
 	case "incl", "excl":
 		return "proto/" + protoPath
-	case "roots":
+	case "roots", "xroots":
 		if strings.HasSuffix(protoPath, "/a.proto") {
 			return modDir(i) + "/ra/" + protoPath
 		}
 		return modDir(i) + "/rb/" + protoPath
+	case "xb1":
+		return modDir(i) + "/src/" + protoPath
 	}
 	return modDir(i) + "/" + protoPath
+}
+
+// twoRoots: the a.proto and the b.proto of a module lie in different roots.
+func (s Spec) twoRoots() bool { return s.Layout == "roots" || s.Layout == "xroots" }
+
+// xLayout: every local module has an excluded directory.
+func (s Spec) xLayout() bool {
+	switch s.Layout {
+	case "x1", "x2", "xb", "xb1", "xroots":
+		return true
+	}
+	return false
+}
+
+// v1beta1: the local modules have v1beta1 buf.yaml files.
+func (s Spec) v1beta1() bool {
+	switch s.Layout {
+	case "roots", "xb", "xb1", "xroots":
+		return true
+	}
+	return false
+}
+
+// nonDotRoot: the proto files of the local modules lie below a root other than the module directory.
+func (s Spec) nonDotRoot() bool {
+	return s.Layout == "roots" || s.Layout == "xb1" || s.Layout == "xroots"
+}
+
+// vendoredOf is the module whose a.proto the excluded directory of module i holds a copy of (Excluded ==
+// "vendored"): the next node after i (cyclically) that is part of the workspace; -1 when there is none.
+func (s Spec) vendoredOf(i int) int {
+	for d := 1; d < s.G.N; d++ {
+		if j := (i + d) % s.G.N; s.present(j) {
+			return j
+		}
+	}
+	return -1
+}
+
+// xDir is one excluded directory of a local module: the directory (a proto path, i.e. relative to the root that
+// holds it), the files in it (proto path -> content) and whether it lies in the root of a.proto (else of b.proto).
+type xDir struct {
+	dir   string
+	files map[string]string
+	inA   bool
+}
+
+// excludedOf describes the excluded directories of local module i.
+//
+//	importer  p<i>/a/d.proto (the directory name is a string prefix of the module's own p<i>/a.proto, which is NOT
+//	          excluded) imports a.proto of every other module of the workspace
+//	missing   p<i>/x/z/e.proto (two levels below the excluded directory p<i>/x) imports a path nobody provides
+//	vendored  p<j>/a.proto, a copy of the file of the next module j of the workspace
+//	all       the three directories together (three entries in the excludes list)
+func (s Spec) excludedOf(i int) []xDir {
+	var out []xDir
+	if s.Excluded == "importer" || s.Excluded == "all" {
+		var d strings.Builder
+		fmt.Fprintf(&d, "syntax = \"proto3\";\npackage p%d.a;\n", i)
+		var fields []string
+		for j := 0; j < s.G.N; j++ {
+			if j != i && s.present(j) {
+				fmt.Fprintf(&d, "import \"%s\";\n", aPath(j))
+				fields = append(fields, fmt.Sprintf(".p%d.A%d f%d = %d;", j, j, j, j+1))
+			}
+		}
+		fmt.Fprintf(&d, "message D%d { %s }\n", i, strings.Join(fields, " "))
+		dir := fmt.Sprintf("p%d/a", i)
+		out = append(out, xDir{dir: dir, files: map[string]string{dir + "/d.proto": d.String()}})
+	}
+	if s.Excluded == "missing" || s.Excluded == "all" {
+		dir := fmt.Sprintf("p%d/x", i)
+		e := fmt.Sprintf("syntax = \"proto3\";\npackage p%d.x.z;\nimport \"%s\";\nmessage E%d {}\n", i, missingPath, i)
+		out = append(out, xDir{dir: dir, files: map[string]string{dir + "/z/e.proto": e}})
+	}
+	if s.Excluded == "vendored" || s.Excluded == "all" {
+		if j := s.vendoredOf(i); j >= 0 {
+			out = append(out, xDir{dir: fmt.Sprintf("p%d", j), files: map[string]string{aPath(j): moduleFiles(j, nil, "", nil, -1)[aPath(j)]}, inA: true})
+		}
+	}
+	return out
+}
+
+// excludeEntry is the entry of the excludes list of module i for its excluded directory, in the form the
+// config version wants it: relative to the buf.yaml (v1, v1beta1: below the root) or to the workspace (v2).
+func (s Spec) excludeEntry(i int, x xDir) string {
+	// a file of the directory, placed; the entry is its directory
+	probe := x.dir + "/b.proto" // lies in the root that holds b.proto
+	if x.inA {
+		probe = x.dir + "/a.proto" // lies in the root that holds a.proto
+	}
+	p := s.place(i, probe)
+	p = p[:strings.LastIndex(p, "/")]
+	if s.V2 {
+		return p
+	}
+	return strings.TrimPrefix(p, modDir(i)+"/")
 }
 
 const missingPath = "nowhere/x.proto"
@@ -108,6 +222,12 @@ func (s Spec) key() string {
 	}
 	if s.Layout != "" {
 		v += "-" + s.Layout
+	}
+	if s.Excluded != "" {
+		v += "-" + s.Excluded
+	}
+	if s.Alone {
+		v += "-alone"
 	}
 	k := fmt.Sprintf("%s/%s/%s/tc%d.%d/dup%d.%d/miss%d", s.Graph, strings.Join(ks, ""), v, s.TwoCommit, s.TCOrder, s.DupFrom, s.DupInto, s.MissingIn)
 	if len(s.Ages) > 0 {
@@ -322,6 +442,21 @@ func (s Spec) valid() (bool, string) {
 	if s.WKTProv >= 0 && (s.WKTProv >= s.G.N || s.Layout != "" || !s.present(s.WKTProv)) {
 		return false, "wkt-provider-not-in-workspace"
 	}
+	if s.xLayout() != (s.Excluded != "") {
+		return false, "an-excluded-directory-needs-an-x-layout-and-its-content"
+	}
+	switch s.Excluded {
+	case "", "importer", "missing":
+	case "vendored", "all":
+		if s.G.N < 2 {
+			return false, "a-vendored-copy-needs-a-second-module"
+		}
+	default:
+		return false, "unknown-content-of-the-excluded-directory"
+	}
+	if s.Alone && (s.G.N != 1 || s.V2 || s.shared()) {
+		return false, "a-module-without-workspace-file-stands-alone"
+	}
 	if s.DupWKT && (s.DupFrom < 0 || s.DupFrom != s.WKTProv || s.DupInto < 0) {
 		return false, "wkt-duplicate-needs-the-wkt-provider-as-source"
 	}
@@ -512,8 +647,14 @@ func build(ctx context.Context, s Spec) (*Built, error) {
 		if s.DupInto == i {
 			files[s.place(i, s.dupPath())] = s.dupContent()
 		}
+		for _, x := range s.excludedOf(i) {
+			for p, c := range x.files {
+				files[s.place(i, p)] = c
+			}
+		}
 	}
-	if (s.shared() && !s.V2) || (s.Layout == "roots" && (s.V2 || len(s.remotes()) > 0)) || ((s.shared() || s.Layout == "roots") && (s.DupFrom >= 0)) {
+	if (s.shared() && !s.V2) || (s.v1beta1() && (s.V2 || len(s.remotes()) > 0)) || ((s.shared() || s.Layout == "roots" || s.xLayout()) && (s.DupFrom >= 0)) ||
+		(s.Layout == "x1" && s.V2) || (s.Layout == "x2" && !s.V2) {
 		return nil, fmt.Errorf("layout %q is not defined for this spec", s.Layout)
 	}
 	if s.V2 {
@@ -537,6 +678,12 @@ func build(ctx context.Context, s Spec) (*Built, error) {
 				}
 			default:
 				fmt.Fprintf(&y, "  - path: %s\n", modDir(i))
+				for k, x := range s.excludedOf(i) {
+					if k == 0 {
+						y.WriteString("    excludes:\n")
+					}
+					fmt.Fprintf(&y, "      - %s\n", s.excludeEntry(i, x))
+				}
 			}
 			if s.Kinds[i] != KLocal {
 				fmt.Fprintf(&y, "    name: %s\n", modName(i))
@@ -575,10 +722,12 @@ func build(ctx context.Context, s Spec) (*Built, error) {
 		for _, i := range locals {
 			fmt.Fprintf(&w, "  - %s\n", modDir(i))
 		}
-		files["buf.work.yaml"] = w.String()
+		if !s.Alone {
+			files["buf.work.yaml"] = w.String()
+		}
 		for _, i := range locals {
 			var y strings.Builder
-			if s.Layout == "roots" {
+			if s.v1beta1() {
 				y.WriteString("version: v1beta1\n")
 			} else {
 				y.WriteString("version: v1\n")
@@ -586,8 +735,20 @@ func build(ctx context.Context, s Spec) (*Built, error) {
 			if s.Kinds[i] != KLocal {
 				fmt.Fprintf(&y, "name: %s\n", modName(i))
 			}
-			if s.Layout == "roots" {
-				y.WriteString("build:\n  roots:\n    - ra\n    - rb\n")
+			xdirs := s.excludedOf(i)
+			if s.nonDotRoot() || len(xdirs) > 0 {
+				y.WriteString("build:\n")
+			}
+			if s.twoRoots() {
+				y.WriteString("  roots:\n    - ra\n    - rb\n")
+			} else if s.Layout == "xb1" {
+				y.WriteString("  roots:\n    - src\n")
+			}
+			for k, x := range xdirs {
+				if k == 0 {
+					y.WriteString("  excludes:\n")
+				}
+				fmt.Fprintf(&y, "    - %s\n", s.excludeEntry(i, x))
 			}
 			y.WriteString(depsYAML("", s.pins(i)))
 			files[modDir(i)+"/buf.yaml"] = y.String()
